@@ -10,7 +10,7 @@ import (
 
 func init() {
 	Register(&Scenario{
-		Prop: "C01", Run: scenarioC01, QuickRuns: 1200, ThoroughRuns: 30000, Level: "exploration",
+		Prop: "C01", Run: scenarioC01, QuickRuns: 7200, ThoroughRuns: 180000, Level: "exploration",
 		Rule:       "one run = one seeded world (built / shipped / random start genomes, option swarm) whose population is checked genome by genome after construction and after every epoch, interleaved with direct operator histories (duplicate, 10 mutators, 3 crossovers against the real population or the reference registry) whose results re-enter the operand pool; a case is one checked genome, distinct by its shape hash (genes, nodes, disabled, recurrent, max innovation); non-trivial when it has a hidden node, a disabled or a recurrent gene",
 		RealParts:  []string{"all of neat/genetics incl. both epoch executors and every operator (through the verif export file)", "Genome.Genesis / network construction", "math/rand seeded from the tape"},
 		StubParts:  []string{"fitness assignment", "innovation registry in about half of the operator histories (reference registry), the real Population in the rest", "goroutine choice for parallel-executor worlds"},
